@@ -293,18 +293,19 @@ CmTextChildOK(cx, kids, ch) ==
          [] m = "html" -> AllWs(d) /\ CmHasE(kids, {N_head}) /\ ~CmHasE(kids, {N_body})
          [] m \in {"head", "list", "dl", "table", "tsect", "tr", "colgroup", "select", "optgroup", "svgc", "math"} -> AllWs(d)
          [] OTHER -> FALSE
-\* comment data the syntax can express
+\* comment data the syntax can express: not starting with ">" or "->", no "<!--", "-->", "--!>", not ending in "<!-"
+\* (the standard's rule); additionally no "--" at all and no trailing "-" (a conservative subset: older revisions of
+\* the standard forbade them and html5lib's serializer reports "--" as an error)
 CmCommentDataOK(d) ==
     /\ CmValueOK(d)
     /\ ~IsPrefixOf(<<62>>, d) /\ ~IsPrefixOf(<<45, 62>>, d)
     /\ ~CmHasSub(d, <<60, 33, 45, 45>>) /\ ~CmHasSub(d, <<45, 45, 62>>) /\ ~CmHasSub(d, <<45, 45, 33, 62>>)
     /\ ~(Len(d) >= 3 /\ SubSeq(d, Len(d) - 2, Len(d)) = <<60, 33, 45>>)
-    /\ ~(d # <<>> /\ d[Len(d)] = 45)                          \* "x-" + "-->" would read back differently; excluded with "--"
+    /\ ~(d # <<>> /\ d[Len(d)] = 45)
     /\ ~CmHasSub(d, <<45, 45>>)
 CmCommentChildOK(cx, kids, ch) ==
     /\ CmCommentDataOK(ch.d)
     /\ cx.m \notin {"text", "raw", "void", "unknown"}
-    /\ (cx.m = "ruby" => TRUE)
 CmDoctypeChildOK(cx, kids, ch) ==
     /\ cx.m = "doc" /\ ch.n = N_html /\ <<ch.p, ch.s>> \in CmDoctypes
     /\ \A i \in 1..Len(kids) : kids[i].k = "comment"
